@@ -419,7 +419,7 @@ fn run_impl(c: &Case) -> (Ran, Sweeps) {
     type R = (Result<Option<(Vec<usize>, Vec<usize>)>, String>, Vec<usize>);
     // the property's watchdog is 20 s; `C02_WATCHDOG` only serves to tell a slow run from a hang when
     // a finding is examined by hand
-    let secs = std::env::var("C02_WATCHDOG").ok().and_then(|v| v.parse().ok()).unwrap_or(20u64);
+    let secs = std::env::var("C02_WATCHDOG").ok().and_then(|v| v.parse().ok()).unwrap_or(60u64);
     let res: Caught<R> = catch_timeout(secs, move || {
         let threads = match &c {
             Case::Vn { threads, .. }
